@@ -55,7 +55,9 @@ CLAIMED = {
     "C08": ex("Per-bar liquidity cap (rational), fill-or-kill of market/stop orders and the precision grid (projection fails on a "
               "non-integral unit count; scale lifting over precisions) on model and implementation.", "DESIGN.md §5 C08"),
     "C09": ex("Closed-form total fee (ceil(max(pct*quote, min))) against the code's incremental rule after every fill, any "
-              "number of partial fills, on model and implementation.", "DESIGN.md §5 C09"),
+              "number of partial fills, on model and implementation; the closed form itself is proved with TLAPS for all rates, "
+              "minimum fees, scales and fill sequences (specs/proofs/FeeProof.tla over FeeCore.tla, which ExchangeCore extends).",
+              "DESIGN.md §5 C09"),
     "C10": ex("A granted loan (explicit or auto-borrow) implies the independently recomputed margin requirement in the post-state; "
               "no lending => no loans; zero-equity accounts included.", "DESIGN.md §5 C10"),
     "C11": ex("Interest formula (outstanding interest of every open loan compared at every step), repayment debit, closure causes "
